@@ -27,12 +27,16 @@ use compio_buf::{BufResult, IntoInner, IoBuf};
 use compio_driver::{
     BufferRef, DriverType, ProactorBuilder, SharedFd,
     op::{
-        BufResultExt, Recv, RecvFlags, RecvFrom, RecvFromVectored, RecvMsg, RecvResultExt,
-        RecvVectored, SendTo, SendToVectored, VecBufResultExt,
+        BufResultExt, Recv, RecvFlags, RecvFrom, RecvFromVectored, RecvMsg, RecvMsgMultiResult,
+        RecvResultExt, RecvVectored, SendTo, SendToVectored, VecBufResultExt,
     },
 };
 use compio_io::{
     AsyncRead, AsyncReadManaged, AsyncReadMulti, AsyncWrite, AsyncWriteZerocopy,
+    ancillary::{
+        AsyncReadAncillary, AsyncReadAncillaryManaged, AsyncReadAncillaryMulti,
+        AsyncWriteAncillary,
+    },
 };
 use compio_net::{
     ReadHalf, TcpListener, TcpStream, UdpSocket, UnixListener, UnixStream, WriteHalf,
@@ -44,20 +48,24 @@ use verif_harness::*;
 // ---------------------------------------------------------------------------
 // shared definitions (the same in RunC14.v and tools/p_c14.py)
 
-const HASH_MOD: u64 = 2147483647;
+const HASH_MASK: u64 = 2147483647;
 const DRAIN_CAP: usize = 4096;
 const WATCHDOG_MS: u64 = 8000;
 
+fn watchdog_ms() -> u64 {
+    std::env::var("C14_WATCHDOG_MS").ok().and_then(|s| s.parse().ok()).unwrap_or(WATCHDOG_MS)
+}
+
 fn pat(seed: u64, i: u64) -> u8 {
     let v = i + seed;
-    let t = (v * v / 8 + v * 7919) & 0xffff_ffff;
-    (((t * 2654435761) & 0xffff_ffff) >> 24) as u8
+    let t = v * v;
+    (((t >> 3) + (t >> 11) + (v << 3) + (v << 2) + v + (v >> 7)) & 255) as u8
 }
 
 fn hash_of(xs: &[u64]) -> u64 {
     let mut h = 7u64;
     for &x in xs {
-        h = (h * 1000003 + x + 1) % HASH_MOD;
+        h = ((h << 5) + h + x + 1) & HASH_MASK;
     }
     h
 }
@@ -218,6 +226,8 @@ trait Wr {
     async fn wv(&mut self, b: Vec<Vec<u8>>) -> BufResult<usize, Vec<Vec<u8>>>;
     async fn zc(&mut self, b: Vec<u8>, defer: bool) -> (io::Result<usize>, Vec<u8>);
     async fn zcv(&mut self, b: Vec<Vec<u8>>, defer: bool) -> (io::Result<usize>, Vec<Vec<u8>>);
+    async fn wa(&mut self, b: Vec<u8>) -> BufResult<usize, Vec<u8>>;
+    async fn wva(&mut self, b: Vec<Vec<u8>>) -> BufResult<usize, Vec<Vec<u8>>>;
     async fn shut(&mut self) -> io::Result<()>;
 }
 
@@ -225,6 +235,14 @@ trait Rd {
     async fn r(&mut self, b: Vec<u8>) -> BufResult<usize, Vec<u8>>;
     async fn rv(&mut self, b: Vec<Vec<u8>>) -> BufResult<usize, Vec<Vec<u8>>>;
     async fn rm(&mut self, len: usize) -> io::Result<Option<BufferRef>>;
+    /// read_with_ancillary: (n, flags)
+    async fn ra(&mut self, b: Vec<u8>) -> BufResult<(usize, u64), Vec<u8>>;
+    /// read_managed_with_ancillary
+    async fn rma(&mut self, len: usize) -> io::Result<Option<(BufferRef, u64)>>;
+    async fn multi_anc(
+        &mut self,
+        sink: &mut dyn FnMut(io::Result<&[u8]>) -> bool,
+    ) -> (u64, u64);
     /// one multishot session: items are handed to `sink` until it returns
     /// false (early drop) or the stream ends; returns (reason, items)
     async fn multi(
@@ -234,8 +252,10 @@ trait Rd {
     ) -> (u64, u64);
 }
 
-async fn drive_multi<St: Stream<Item = io::Result<BufferRef>>>(
+async fn drive_multi<T, St: Stream<Item = io::Result<T>>>(
     st: St,
+    data: impl Fn(&T) -> &[u8],
+    empty_is_end: bool,
     sink: &mut dyn FnMut(io::Result<&[u8]>) -> bool,
 ) -> (u64, u64) {
     let mut st = std::pin::pin!(st);
@@ -245,8 +265,13 @@ async fn drive_multi<St: Stream<Item = io::Result<BufferRef>>>(
         match st.next().await {
             None => return (0, items),
             Some(Ok(buf)) => {
+                if empty_is_end && data(&buf).is_empty() {
+                    // the ancillary multishot stream reports end-of-stream as
+                    // an item without payload
+                    return (0, items);
+                }
                 items += 1;
-                let go = sink(Ok(&buf[..]));
+                let go = sink(Ok(data(&buf)));
                 drop(buf);
                 if !go {
                     return (1, items);
@@ -274,6 +299,38 @@ macro_rules! zc_body {
         }
         let buf = fut.await;
         (res, buf)
+    }};
+}
+
+macro_rules! anc_w {
+    ($s:expr, $b:expr) => {{
+        let BufResult(res, (b, _c)) = $s.write_with_ancillary($b, Vec::<u8>::new()).await;
+        BufResult(res, b)
+    }};
+}
+macro_rules! anc_wv {
+    ($s:expr, $b:expr) => {{
+        let BufResult(res, (b, _c)) = $s.write_vectored_with_ancillary($b, Vec::<u8>::new()).await;
+        BufResult(res, b)
+    }};
+}
+macro_rules! anc_r {
+    ($s:expr, $b:expr) => {{
+        let BufResult(res, (b, _c)) = $s.read_with_ancillary($b, ctrl_buf()).await;
+        BufResult(res.map(|(n, _cl, fl)| (n, fl.bits() as u64)), b)
+    }};
+}
+macro_rules! anc_rm {
+    ($s:expr, $len:expr) => {{
+        $s.read_managed_with_ancillary($len, ctrl_buf())
+            .await
+            .map(|o| o.map(|(b, _c, fl)| (b, fl.bits() as u64)))
+    }};
+}
+macro_rules! anc_multi {
+    ($s:expr, $sink:expr) => {{
+        let st = $s.read_multi_with_ancillary(64);
+        drive_multi(st, |b: &RecvMsgMultiResult| b.data(), true, $sink).await
     }};
 }
 
@@ -305,6 +362,14 @@ macro_rules! impl_stream {
                 let mut s = self.0;
                 zc_body!(self, s.write_zerocopy_vectored(b).await, defer)
             }
+            async fn wa(&mut self, b: Vec<u8>) -> BufResult<usize, Vec<u8>> {
+                let mut s = self.0;
+                anc_w!(s, b)
+            }
+            async fn wva(&mut self, b: Vec<Vec<u8>>) -> BufResult<usize, Vec<Vec<u8>>> {
+                let mut s = self.0;
+                anc_wv!(s, b)
+            }
             async fn shut(&mut self) -> io::Result<()> {
                 let mut s = self.0;
                 s.shutdown().await
@@ -323,6 +388,21 @@ macro_rules! impl_stream {
                 let mut s = self.0;
                 s.read_managed(len).await
             }
+            async fn ra(&mut self, b: Vec<u8>) -> BufResult<(usize, u64), Vec<u8>> {
+                let mut s = self.0;
+                anc_r!(s, b)
+            }
+            async fn rma(&mut self, len: usize) -> io::Result<Option<(BufferRef, u64)>> {
+                let mut s = self.0;
+                anc_rm!(s, len)
+            }
+            async fn multi_anc(
+                &mut self,
+                sink: &mut dyn FnMut(io::Result<&[u8]>) -> bool,
+            ) -> (u64, u64) {
+                let mut s = self.0;
+                anc_multi!(s, sink)
+            }
             async fn multi(
                 &mut self,
                 len: usize,
@@ -330,7 +410,7 @@ macro_rules! impl_stream {
             ) -> (u64, u64) {
                 let mut s = self.0;
                 let st = s.read_multi(len);
-                drive_multi(st, sink).await
+                drive_multi(st, |b: &BufferRef| &b[..], false, sink).await
             }
         }
         impl Wr for BorrowedW<'_, $S> {
@@ -352,6 +432,14 @@ macro_rules! impl_stream {
                 let mut s: &$S = &*self.0;
                 zc_body!(self, s.write_zerocopy_vectored(b).await, defer)
             }
+            async fn wa(&mut self, b: Vec<u8>) -> BufResult<usize, Vec<u8>> {
+                let mut s: &$S = &*self.0;
+                anc_w!(s, b)
+            }
+            async fn wva(&mut self, b: Vec<Vec<u8>>) -> BufResult<usize, Vec<Vec<u8>>> {
+                let mut s: &$S = &*self.0;
+                anc_wv!(s, b)
+            }
             async fn shut(&mut self) -> io::Result<()> {
                 self.0.shutdown().await
             }
@@ -367,6 +455,21 @@ macro_rules! impl_stream {
                 let mut s: &$S = &*self.0;
                 s.read_managed(len).await
             }
+            async fn ra(&mut self, b: Vec<u8>) -> BufResult<(usize, u64), Vec<u8>> {
+                let mut s: &$S = &*self.0;
+                anc_r!(s, b)
+            }
+            async fn rma(&mut self, len: usize) -> io::Result<Option<(BufferRef, u64)>> {
+                let mut s: &$S = &*self.0;
+                anc_rm!(s, len)
+            }
+            async fn multi_anc(
+                &mut self,
+                sink: &mut dyn FnMut(io::Result<&[u8]>) -> bool,
+            ) -> (u64, u64) {
+                let mut s: &$S = &*self.0;
+                anc_multi!(s, sink)
+            }
             async fn multi(
                 &mut self,
                 len: usize,
@@ -374,7 +477,7 @@ macro_rules! impl_stream {
             ) -> (u64, u64) {
                 let mut s: &$S = &*self.0;
                 let st = s.read_multi(len);
-                drive_multi(st, sink).await
+                drive_multi(st, |b: &BufferRef| &b[..], false, sink).await
             }
         }
         impl Wr for Owned<$S> {
@@ -394,6 +497,12 @@ macro_rules! impl_stream {
             ) -> (io::Result<usize>, Vec<Vec<u8>>) {
                 zc_body!(self, self.0.write_zerocopy_vectored(b).await, defer)
             }
+            async fn wa(&mut self, b: Vec<u8>) -> BufResult<usize, Vec<u8>> {
+                anc_w!(self.0, b)
+            }
+            async fn wva(&mut self, b: Vec<Vec<u8>>) -> BufResult<usize, Vec<Vec<u8>>> {
+                anc_wv!(self.0, b)
+            }
             async fn shut(&mut self) -> io::Result<()> {
                 self.0.shutdown().await
             }
@@ -408,13 +517,25 @@ macro_rules! impl_stream {
             async fn rm(&mut self, len: usize) -> io::Result<Option<BufferRef>> {
                 self.0.read_managed(len).await
             }
+            async fn ra(&mut self, b: Vec<u8>) -> BufResult<(usize, u64), Vec<u8>> {
+                anc_r!(self.0, b)
+            }
+            async fn rma(&mut self, len: usize) -> io::Result<Option<(BufferRef, u64)>> {
+                anc_rm!(self.0, len)
+            }
+            async fn multi_anc(
+                &mut self,
+                sink: &mut dyn FnMut(io::Result<&[u8]>) -> bool,
+            ) -> (u64, u64) {
+                anc_multi!(self.0, sink)
+            }
             async fn multi(
                 &mut self,
                 len: usize,
                 sink: &mut dyn FnMut(io::Result<&[u8]>) -> bool,
             ) -> (u64, u64) {
                 let st = self.0.read_multi(len);
-                drive_multi(st, sink).await
+                drive_multi(st, |b: &BufferRef| &b[..], false, sink).await
             }
         }
     };
@@ -432,7 +553,7 @@ async fn run_sender<W: Wr>(mut w: W, ops: Vec<Op>, d: Rc<Dir>) {
                 pause(op.a).await;
                 continue;
             }
-            1 | 3 => {
+            1 | 3 | 6 => {
                 let len = op.a as usize;
                 let extra = (op.b % 1024) as usize;
                 let defer = op.b >= 1024;
@@ -441,6 +562,9 @@ async fn run_sender<W: Wr>(mut w: W, ops: Vec<Op>, d: Rc<Dir>) {
                 let slot = log.push([1, d.dir, idx, len as u64, 0, 0, op.k]);
                 let (res, back) = if op.k == 1 {
                     let BufResult(res, back) = w.w(buf).await;
+                    (res, back)
+                } else if op.k == 6 {
+                    let BufResult(res, back) = w.wa(buf).await;
                     (res, back)
                 } else {
                     w.zc(buf, defer).await
@@ -456,7 +580,7 @@ async fn run_sender<W: Wr>(mut w: W, ops: Vec<Op>, d: Rc<Dir>) {
                     Err(e) => log.set(slot, [7, d.dir, idx, errno_of(&e), 0, ok, op.k]),
                 }
             }
-            2 | 4 => {
+            2 | 4 | 7 => {
                 let total = op.a as usize;
                 let members = ((op.b % 1024) as usize).clamp(1, 8);
                 let defer = op.b >= 1024;
@@ -471,6 +595,9 @@ async fn run_sender<W: Wr>(mut w: W, ops: Vec<Op>, d: Rc<Dir>) {
                 let slot = log.push([1, d.dir, idx, total as u64, 0, 0, op.k]);
                 let (res, back) = if op.k == 2 {
                     let BufResult(res, back) = w.wv(bufs).await;
+                    (res, back)
+                } else if op.k == 7 {
+                    let BufResult(res, back) = w.wva(bufs).await;
                     (res, back)
                 } else {
                     w.zcv(bufs, defer).await
@@ -538,11 +665,21 @@ impl Dir {
 async fn recv_once<R: Rd>(r: &mut R, d: &Dir, idx: u64, kind: u64, a: u64, b: u64) -> bool {
     let log = &d.log;
     match kind {
-        1 => {
+        1 | 6 => {
             let cap = a as usize;
             let len = (b as usize).min(cap);
             let buf = canary_vec(len, cap);
-            let BufResult(res, buf) = r.r(buf).await;
+            let BufResult(res, buf) = if kind == 1 {
+                r.r(buf).await
+            } else {
+                let BufResult(res, buf) = r.ra(buf).await;
+                match res {
+                    // a stream never reports flags
+                    Ok((_, fl)) if fl != 0 => BufResult(Err(io::Error::from_raw_os_error(9997)), buf),
+                    Ok((n, _)) => BufResult(Ok(n), buf),
+                    Err(e) => BufResult(Err(e), buf),
+                }
+            };
             match res {
                 Ok(n) => {
                     let n = n.min(buf.capacity());
@@ -550,11 +687,11 @@ async fn recv_once<R: Rd>(r: &mut R, d: &Dir, idx: u64, kind: u64, a: u64, b: u6
                         (0..n).map(|i| unsafe { *buf.as_ptr().add(i) }).collect();
                     let eof = n == 0 && cap > 0;
                     let pos = if eof { d.eof() } else { d.deliver(&chunk) };
-                    log.push([3, d.dir, idx, n as u64, pos, hash_of(&vec_state(&buf)), 1]);
+                    log.push([3, d.dir, idx, n as u64, pos, hash_of(&vec_state(&buf)), kind]);
                     eof
                 }
                 Err(e) => {
-                    log.push([6, d.dir, idx, errno_of(&e), 0, 0, 1]);
+                    log.push([6, d.dir, idx, errno_of(&e), 0, 0, kind]);
                     true
                 }
             }
@@ -581,28 +718,39 @@ async fn recv_once<R: Rd>(r: &mut R, d: &Dir, idx: u64, kind: u64, a: u64, b: u6
                 }
             }
         }
-        3 => match r.rm(a as usize).await {
-            Ok(Some(buf)) => {
-                let chunk: Vec<u8> = buf[..].to_vec();
-                drop(buf);
-                let pos = d.deliver(&chunk);
-                let mut st = vec![chunk.len() as u64];
-                st.extend(chunk.iter().map(|&x| x as u64));
-                log.push([3, d.dir, idx, chunk.len() as u64, pos, hash_of(&st), 3]);
-                false
+        3 | 7 => {
+            let res = if kind == 3 {
+                r.rm(a as usize).await
+            } else {
+                match r.rma(a as usize).await {
+                    Ok(Some((_, fl))) if fl != 0 => Err(io::Error::from_raw_os_error(9997)),
+                    Ok(o) => Ok(o.map(|(b, _)| b)),
+                    Err(e) => Err(e),
+                }
+            };
+            match res {
+                Ok(Some(buf)) => {
+                    let chunk: Vec<u8> = buf[..].to_vec();
+                    drop(buf);
+                    let pos = d.deliver(&chunk);
+                    let mut st = vec![chunk.len() as u64];
+                    st.extend(chunk.iter().map(|&x| x as u64));
+                    log.push([3, d.dir, idx, chunk.len() as u64, pos, hash_of(&st), kind]);
+                    false
+                }
+                Ok(None) => {
+                    let pos = d.eof();
+                    log.push([3, d.dir, idx, 0, pos, hash_of(&[0]), kind]);
+                    true
+                }
+                Err(e) => {
+                    log.push([6, d.dir, idx, errno_of(&e), 0, 0, kind]);
+                    // pool exhausted (e.g. a cancelled multishot still holds the
+                    // buffers): nothing was consumed, the program goes on
+                    e.kind() != io::ErrorKind::ResourceBusy
+                }
             }
-            Ok(None) => {
-                let pos = d.eof();
-                log.push([3, d.dir, idx, 0, pos, hash_of(&[0]), 3]);
-                true
-            }
-            Err(e) => {
-                log.push([6, d.dir, idx, errno_of(&e), 0, 0, 3]);
-                // pool exhausted (e.g. a cancelled multishot still holds the
-                // buffers): nothing was consumed, the program goes on
-                e.kind() != io::ErrorKind::ResourceBusy
-            }
-        },
+        }
         _ => false,
     }
 }
@@ -614,12 +762,13 @@ async fn run_receiver<R: Rd>(mut r: R, ops: Vec<Op>, d: Rc<Dir>) {
         let idx = idx as u64;
         match op.k {
             5 => pause(op.a).await,
-            1 | 2 | 3 => {
+            1 | 2 | 3 | 6 | 7 => {
                 if recv_once(&mut r, &d, idx, op.k, op.a, op.b).await {
                     seen_eof = true;
                 }
             }
-            4 => {
+            4 | 8 => {
+                let kind = op.k;
                 let take = op.b;
                 let mut taken = 0u64;
                 let dd = d.clone();
@@ -629,18 +778,22 @@ async fn run_receiver<R: Rd>(mut r: R, ops: Vec<Op>, d: Rc<Dir>) {
                             let pos = dd.deliver(chunk);
                             let mut st = vec![chunk.len() as u64];
                             st.extend(chunk.iter().map(|&x| x as u64));
-                            dd.log.push([3, dd.dir, idx, chunk.len() as u64, pos, hash_of(&st), 4]);
+                            dd.log.push([3, dd.dir, idx, chunk.len() as u64, pos, hash_of(&st), kind]);
                             taken += 1;
                             !(take > 0 && taken >= take)
                         }
                         Err(e) => {
-                            dd.log.push([6, dd.dir, idx, errno_of(&e), 0, 0, 4]);
+                            dd.log.push([6, dd.dir, idx, errno_of(&e), 0, 0, kind]);
                             // out of pool buffers: the stream re-submits
                             e.kind() == io::ErrorKind::ResourceBusy
                         }
                     }
                 };
-                let (reason, items) = r.multi(op.a as usize, &mut sink).await;
+                let (reason, items) = if kind == 4 {
+                    r.multi(op.a as usize, &mut sink).await
+                } else {
+                    r.multi_anc(&mut sink).await
+                };
                 if reason == 0 {
                     let pos = d.eof();
                     log.push([4, d.dir, idx, 0, items, pos, 0]);
@@ -663,7 +816,7 @@ async fn run_receiver<R: Rd>(mut r: R, ops: Vec<Op>, d: Rc<Dir>) {
         idx += 1;
         guard += 1;
     }
-    recv_once(&mut r, &d, idx, 1, 16, 0).await;
+    recv_once(&mut r, &d, idx, 1, DRAIN_CAP as u64, 0).await;
 }
 
 fn summary(d: &Dir) {
@@ -740,10 +893,10 @@ fn stream_case(c: &mut Case) -> Result<Vec<u64>, BadCase> {
     if tr > 1 || split > 2 || sbuf > (1 << 22) || rbuf > (1 << 22) || seed > 60000 {
         return Err(BadCase);
     }
-    let pa = take_ops(c, 5)?;
-    let pb = take_ops(c, 5)?;
-    let pc = take_ops(c, 5)?;
-    let pd = take_ops(c, 5)?;
+    let pa = take_ops(c, 7)?;
+    let pb = take_ops(c, 8)?;
+    let pc = take_ops(c, 7)?;
+    let pd = take_ops(c, 8)?;
     if c.i != c.v.len() {
         return Err(BadCase);
     }
@@ -768,7 +921,7 @@ fn stream_case(c: &mut Case) -> Result<Vec<u64>, BadCase> {
     let d2 = mk(2, &pc);
     let (d1c, d2c) = (d1.clone(), d2.clone());
     let fin = rt.block_on(async move {
-        timeout(Duration::from_millis(WATCHDOG_MS), async move {
+        timeout(Duration::from_millis(watchdog_ms()), async move {
             if tr == 0 {
                 let l = TcpListener::bind("127.0.0.1:0").await.unwrap();
                 set_bufs(&l, sbuf, rbuf);
@@ -1176,7 +1329,7 @@ fn dgram_case(c: &mut Case) -> Result<Vec<u64>, BadCase> {
     let l2 = log.clone();
     let fin = rt.block_on(async move {
         let log = l2;
-        timeout(Duration::from_millis(WATCHDOG_MS), async move {
+        timeout(Duration::from_millis(watchdog_ms()), async move {
             let mut paths = Vec::new();
             // receiver + senders
             let (rx, txs): (DgSock, Vec<DgTx>) = if tr == 0 {
@@ -1402,7 +1555,7 @@ fn accept_case(c: &mut Case) -> Result<Vec<u64>, BadCase> {
     let log = Rc::new(Log::default());
     let l2 = log.clone();
     let fin = rt.block_on(async move {
-        timeout(Duration::from_millis(WATCHDOG_MS), async move {
+        timeout(Duration::from_millis(watchdog_ms()), async move {
             if tr == 0 {
                 let l = TcpListener::bind("127.0.0.1:0").await.unwrap();
                 let addr = l.local_addr().unwrap();
